@@ -8,7 +8,7 @@ The long-format reader is regular-expression based; Read.lean models each regula
 (compared with `re` itself on every run); Lemmas/Matchers.lean restates the matchers on `List Char`.
 
 * `parseLong_emit` — the whole-file theorem (any number of tiers, also none), hypotheses: `LongNum` numerals, `NoKwLong`
-  (A10: `item [`, `item[`, and the entry separator of the tier's own class), strip-invariant labels, no `\r\n` — and NO
+  (A10: `item [`, `item[`, and the entry separator of the tier's own class), no `\r\n` (labels: any — `parseLong_emit_strip` returns them stripped; `parseLong_emit` is the corollary for strip-invariant ones) — and NO
   hypothesis on tier names beyond the keywords (multi-line names: fix A32; span rows searched behind the name: fix A33).  NOT needed (proved harmless): labels/names that look like rows (`text = "…"`, `xmin = 5`, `name = "x"`,
   `class = "IntervalTier"`), quotes followed by blanks and a line break, the other class's separator.
 * (a) `numAfter_written`, `textAfter_dotall`, `textAfter_dotall_tail`, `scanL_barrier`, `scanL_free` — the matchers on written rows;
@@ -844,13 +844,21 @@ theorem unescape_label (l : String) (hs : NoEdgeSpace l.toList) :
   unfold toStr
   rw [replace_qq, strip_toArray, List.toList_toArray, word_written l.toList hs, String.ofList_toList]
 
+/-- what the long-format reader makes of a written label: `label.strip()`, then un-doubling — the STRIPPED label, for EVERY label -/
+theorem unescape_label_strip (l : String) :
+    toStr (replace (strip (escapeL l.toList).toArray) (lit "\"\"") (lit "\"")) = pyStrip l := by
+  unfold toStr
+  rw [replace_qq, strip_toArray, List.toList_toArray, word_written_strip l.toList]
+  rfl
+
 theorem notMem_tab3 (c : Char) (h : c ≠ ' ') : c ∉ tab3 := fun hm => h (mem_tab3 c hm)
 theorem notMem_tab2 (c : Char) (h : c ≠ ' ') : c ∉ tab2 := fun hm => h (mem_tab2 c hm)
 
-/-- **one written interval entry is read back** (every label; numerals matching the reader's pattern) -/
-theorem readEntry_iv (num : α → String) (hnum : ∀ x, LongNum (num x).toList) (j : Nat) (e : Iv α) (ws : List Char)
-    (hws : ∀ c ∈ ws, c = ' ') (hl : NoEdgeSpace e.l.toList) :
-    readEntryLong true (ivBody num j e ++ ws).toArray = .ok [num e.s, num e.e, e.l] := by
+/-- **one written interval entry is read back** with its label STRIPPED (`str.strip()`), for EVERY label (numerals matching the
+reader's pattern) -/
+theorem readEntry_iv_strip (num : α → String) (hnum : ∀ x, LongNum (num x).toList) (j : Nat) (e : Iv α) (ws : List Char)
+    (hws : ∀ c ∈ ws, c = ' ') :
+    readEntryLong true (ivBody num j e ++ ws).toArray = .ok [num e.s, num e.e, pyStrip e.l] := by
   have ix := notMem_idxL 'x' j (by decide) (by decide) (by decide)
   have it := notMem_idxL 't' j (by decide) (by decide) (by decide)
   have tx := notMem_tab3 'x' (by decide)
@@ -885,12 +893,18 @@ theorem readEntry_iv (num : α → String) (hnum : ∀ x, LongNum (num x).toList
       intro T; simp only [List.append_assoc, List.cons_append, List.nil_append]
     rw [e1, scanL_after 't' ['e', 'x', 't'] _ _ (textAfter true) _ hC (textAfter_dotall (escapeL e.l.toList) ws hws)]
     rfl
-  simp only [readEntryLong, if_true, h1, h2, h3, need, bind, Except.bind, pure, Except.pure, toStr_toArray, unescape_label _ hl]
+  simp only [readEntryLong, if_true, h1, h2, h3, need, bind, Except.bind, pure, Except.pure, toStr_toArray, unescape_label_strip]
 
-/-- **one written point entry is read back** -/
-theorem readEntry_pt (num : α → String) (hnum : ∀ x, LongNum (num x).toList) (j : Nat) (p : Pt α) (ws : List Char)
-    (hws : ∀ c ∈ ws, c = ' ') (hl : NoEdgeSpace p.l.toList) :
-    readEntryLong false (ptBody num j p ++ ws).toArray = .ok [num p.t, p.l] := by
+/-- **one written interval entry is read back** (every strip-invariant label: the corollary of `readEntry_iv_strip`) -/
+theorem readEntry_iv (num : α → String) (hnum : ∀ x, LongNum (num x).toList) (j : Nat) (e : Iv α) (ws : List Char)
+    (hws : ∀ c ∈ ws, c = ' ') (hl : NoEdgeSpace e.l.toList) :
+    readEntryLong true (ivBody num j e ++ ws).toArray = .ok [num e.s, num e.e, e.l] := by
+  rw [readEntry_iv_strip num hnum j e ws hws, (pyStrip_eq_iff e.l).2 hl]
+
+/-- **one written point entry is read back** with its mark STRIPPED, for EVERY mark -/
+theorem readEntry_pt_strip (num : α → String) (hnum : ∀ x, LongNum (num x).toList) (j : Nat) (p : Pt α) (ws : List Char)
+    (hws : ∀ c ∈ ws, c = ' ') :
+    readEntryLong false (ptBody num j p ++ ws).toArray = .ok [num p.t, pyStrip p.l] := by
   have i_n := notMem_idxL 'n' j (by decide) (by decide) (by decide)
   have i_m := notMem_idxL 'm' j (by decide) (by decide) (by decide)
   have t_n := notMem_tab3 'n' (by decide)
@@ -915,7 +929,13 @@ theorem readEntry_pt (num : α → String) (hnum : ∀ x, LongNum (num x).toList
     rw [scanL_after 'm' ['a', 'r', 'k'] _ _ (textAfter true) _ hC (textAfter_dotall (escapeL p.l.toList) ws hws)]
     rfl
   simp only [readEntryLong, Bool.false_eq_true, if_false, h1, h3, need, bind, Except.bind, pure, Except.pure, toStr_toArray,
-    unescape_label _ hl]
+    unescape_label_strip]
+
+/-- **one written point entry is read back** (every strip-invariant mark) -/
+theorem readEntry_pt (num : α → String) (hnum : ∀ x, LongNum (num x).toList) (j : Nat) (p : Pt α) (ws : List Char)
+    (hws : ∀ c ∈ ws, c = ' ') (hl : NoEdgeSpace p.l.toList) :
+    readEntryLong false (ptBody num j p ++ ws).toArray = .ok [num p.t, p.l] := by
+  rw [readEntry_pt_strip num hnum j p ws hws, (pyStrip_eq_iff p.l).2 hl]
 
 /-! ## splitting a text of the shape  X sep KW B₁ sep KW B₂ … trail -/
 
@@ -1246,31 +1266,31 @@ theorem piecesL_shape (sep X : List Char) (Bs : List (List Char)) (trail : List 
   | cons B Bs' => exact ⟨sep, _, Or.inl rfl, rfl, rfl⟩
 
 theorem mapM_entries_iv (num : α → String) (hnum : ∀ x, LongNum (num x).toList) (trail : List Char)
-    (htrail : ∀ c ∈ trail, c = ' ') (j : Nat) (e : Iv α) (es : List (Iv α)) (hl : ∀ x ∈ e :: es, NoEdgeSpace x.l.toList) :
+    (htrail : ∀ c ∈ trail, c = ' ') (j : Nat) (e : Iv α) (es : List (Iv α)) :
     ((piecesL tab2 (ivBody num j e) (ivBodies num (j + 1) es) trail).map List.toArray).mapM (readEntryLong true) =
-      .ok ((e :: es).map fun e => [num e.s, num e.e, e.l]) := by
+      .ok ((e :: es).map fun e => [num e.s, num e.e, pyStrip e.l]) := by
   induction es generalizing j e with
   | nil =>
     simp only [ivBodies, piecesL, List.map_cons, List.map_nil, List.mapM_cons, List.mapM_nil,
-      readEntry_iv num hnum j e trail htrail (hl e (by simp)), bind, Except.bind, pure, Except.pure]
+      readEntry_iv_strip num hnum j e trail htrail, bind, Except.bind, pure, Except.pure]
   | cons e2 es ih =>
-    have h2 := ih (j + 1) e2 (fun x hx => hl x (List.mem_cons_of_mem _ hx))
+    have h2 := ih (j + 1) e2
     simp only [ivBodies, piecesL, List.map_cons, List.mapM_cons,
-      readEntry_iv num hnum j e tab2 mem_tab2 (hl e (by simp)), bind, Except.bind, pure, Except.pure] at h2 ⊢
+      readEntry_iv_strip num hnum j e tab2 mem_tab2, bind, Except.bind, pure, Except.pure] at h2 ⊢
     rw [h2]
 
 theorem mapM_entries_pt (num : α → String) (hnum : ∀ x, LongNum (num x).toList) (trail : List Char)
-    (htrail : ∀ c ∈ trail, c = ' ') (j : Nat) (p : Pt α) (ps : List (Pt α)) (hl : ∀ x ∈ p :: ps, NoEdgeSpace x.l.toList) :
+    (htrail : ∀ c ∈ trail, c = ' ') (j : Nat) (p : Pt α) (ps : List (Pt α)) :
     ((piecesL tab2 (ptBody num j p) (ptBodies num (j + 1) ps) trail).map List.toArray).mapM (readEntryLong false) =
-      .ok ((p :: ps).map fun p => [num p.t, p.l]) := by
+      .ok ((p :: ps).map fun p => [num p.t, pyStrip p.l]) := by
   induction ps generalizing j p with
   | nil =>
     simp only [ptBodies, piecesL, List.map_cons, List.map_nil, List.mapM_cons, List.mapM_nil,
-      readEntry_pt num hnum j p trail htrail (hl p (by simp)), bind, Except.bind, pure, Except.pure]
+      readEntry_pt_strip num hnum j p trail htrail, bind, Except.bind, pure, Except.pure]
   | cons p2 ps ih =>
-    have h2 := ih (j + 1) p2 (fun x hx => hl x (List.mem_cons_of_mem _ hx))
+    have h2 := ih (j + 1) p2
     simp only [ptBodies, piecesL, List.map_cons, List.mapM_cons,
-      readEntry_pt num hnum j p tab2 mem_tab2 (hl p (by simp)), bind, Except.bind, pure, Except.pure] at h2 ⊢
+      readEntry_pt_strip num hnum j p tab2 mem_tab2, bind, Except.bind, pure, Except.pure] at h2 ⊢
     rw [h2]
 
 /-! ## hypotheses on names and labels for the long format -/
@@ -1401,10 +1421,8 @@ theorem classAfter_written (b a : Bool) (rest : List Char) : classAfter (eqOf b 
 
 /-- **(b) one written interval tier is read back** from its `tierTxt` (the text between two `item [`) -/
 theorem readTier_iv (num : α → String) (hnum : ∀ x, LongNum (num x).toList) (k : Nat) (t : ITier α) (trail : List Char)
-    (htrail : ∀ c ∈ trail, c = ' ') (hkw : NoKwLong (.I t)) (hlab : StrippedLabels (.I t)) :
-    readTierLong (tierBodyL num k (.I t) ++ trail).toArray = .ok (rawTier num (.I t)) := by
-  have hl : ∀ e ∈ t.es, NoEdgeSpace e.l.toList := fun e he =>
-    (pyStrip_eq_iff _).1 (hlab e.l (by simp only [labelsOf, List.mem_map]; exact ⟨e, he, rfl⟩))
+    (htrail : ∀ c ∈ trail, c = ' ') (hkw : NoKwLong (.I t)) :
+    readTierLong (tierBodyL num k (.I t) ++ trail).toArray = .ok (rawTier num (stripT (.I t))) := by
   have hkn : ∀ p ∈ [ivSA, ivSB], ¬ p <:+: t.name.toList := fun p hp =>
     hkw t.name (by simp [texts]) p (List.mem_cons_of_mem _ (List.mem_cons_of_mem _ hp))
   have hke : ∀ e ∈ t.es, ∀ p ∈ [ivSA, ivSB], ¬ p <:+: e.l.toList := fun e he p hp =>
@@ -1460,15 +1478,16 @@ theorem readTier_iv (num : α → String) (hnum : ∀ x, LongNum (num x).toList)
     (fun hm => absurd (hwsp _ hm) (by decide))
   simp only [if_true] at hn
   obtain ⟨hx1, hx2⟩ := rest_nums num hnum t.lo t.hi "intervals".toList t.es.length ws
-  have hents : (rest.map List.toArray).mapM (readEntryLong true) = .ok (t.es.map fun e => [num e.s, num e.e, e.l]) := by
+  have hents : (rest.map List.toArray).mapM (readEntryLong true) = .ok (t.es.map fun e => [num e.s, num e.e, pyStrip e.l]) := by
     rw [hrest]
     cases hes : t.es with
     | nil => rfl
     | cons e es =>
       simp only [ivBodies]
-      exact mapM_entries_iv num hnum trail htrail 0 e es (fun x hx => hl x (by rw [hes]; exact hx))
+      exact mapM_entries_iv num hnum trail htrail 0 e es
   simp only [readTierLong, hI, if_true, hsplit, hp, List.map_cons, List.headD_cons, List.drop_succ_cons, List.drop_zero,
-    hn, hx1, hx2, hents, need, needP, bind, Except.bind, pure, Except.pure, unescape_name, toStr_toArray, rawTier]
+    hn, hx1, hx2, hents, need, needP, bind, Except.bind, pure, Except.pure, unescape_name, toStr_toArray, rawTier, stripT,
+    List.map_map, Function.comp_def]
 
 /-! ## the class test `'class = "IntervalTier"' in tierTxt` cannot be fooled by a name or label
 
@@ -1798,10 +1817,8 @@ theorem class_not_in_point (num : α → String) (hnum : ∀ x, LongNum (num x).
 
 /-- **(b) one written point tier is read back** from its `tierTxt` -/
 theorem readTier_pt (num : α → String) (hnum : ∀ x, LongNum (num x).toList) (k : Nat) (t : PTier α) (trail : List Char)
-    (htrail : ∀ c ∈ trail, c = ' ') (hkw : NoKwLong (.P t)) (hlab : StrippedLabels (.P t)) :
-    readTierLong (tierBodyL num k (.P t) ++ trail).toArray = .ok (rawTier num (.P t)) := by
-  have hl : ∀ p ∈ t.ps, NoEdgeSpace p.l.toList := fun p hp =>
-    (pyStrip_eq_iff _).1 (hlab p.l (by simp only [labelsOf, List.mem_map]; exact ⟨p, hp, rfl⟩))
+    (htrail : ∀ c ∈ trail, c = ' ') (hkw : NoKwLong (.P t)) :
+    readTierLong (tierBodyL num k (.P t) ++ trail).toArray = .ok (rawTier num (stripT (.P t))) := by
   have hkn : ∀ p ∈ [ptSA, ptSB], ¬ p <:+: t.name.toList := fun p hp =>
     hkw t.name (by simp [texts]) p (List.mem_cons_of_mem _ (List.mem_cons_of_mem _ hp))
   have hke : ∀ e ∈ t.ps, ∀ p ∈ [ptSA, ptSB], ¬ p <:+: e.l.toList := fun e he p hp =>
@@ -1843,15 +1860,16 @@ theorem readTier_pt (num : α → String) (hnum : ∀ x, LongNum (num x).toList)
     (fun hm => absurd (hwsp _ hm) (by decide))
   simp only [Bool.false_eq_true, if_false] at hn
   obtain ⟨hx1, hx2⟩ := rest_nums num hnum t.lo t.hi "points".toList t.ps.length ws
-  have hents : (rest.map List.toArray).mapM (readEntryLong false) = .ok (t.ps.map fun p => [num p.t, p.l]) := by
+  have hents : (rest.map List.toArray).mapM (readEntryLong false) = .ok (t.ps.map fun p => [num p.t, pyStrip p.l]) := by
     rw [hrest]
     cases hes : t.ps with
     | nil => rfl
     | cons e es =>
       simp only [ptBodies]
-      exact mapM_entries_pt num hnum trail htrail 0 e es (fun x hx => hl x (by rw [hes]; exact hx))
+      exact mapM_entries_pt num hnum trail htrail 0 e es
   simp only [readTierLong, hI, Bool.false_eq_true, if_false, hsplit, hp, List.map_cons, List.headD_cons, List.drop_succ_cons,
-    List.drop_zero, hn, hx1, hx2, hents, need, needP, bind, Except.bind, pure, Except.pure, unescape_name, toStr_toArray, rawTier]
+    List.drop_zero, hn, hx1, hx2, hents, need, needP, bind, Except.bind, pure, Except.pure, unescape_name, toStr_toArray, rawTier,
+    stripT, List.map_map, Function.comp_def]
 
 /-! ## the whole file: no `\r\n`, the header fields, the split at `item [` -/
 
@@ -2143,27 +2161,34 @@ theorem mem_tierBodies (num : α → String) (k : Nat) (ts : List (AnyTier α)) 
     · obtain ⟨k', t', ht, hz⟩ := ih (k + 1) h
       exact ⟨k', t', List.mem_cons_of_mem _ ht, hz⟩
 
-/-- **(b) any written tier is read back** from its `tierTxt` -/
+/-- **(b) any written tier is read back** from its `tierTxt` with every label STRIPPED (`str.strip()`: the reader's
+`label.strip()`), name and everything else unchanged — no hypothesis on labels -/
+theorem readTier_written_strip (num : α → String) (hnum : ∀ x, LongNum (num x).toList) (k : Nat) (t : AnyTier α) (trail : List Char)
+    (htrail : ∀ c ∈ trail, c = ' ') (hkw : NoKwLong t) :
+    readTierLong (tierBodyL num k t ++ trail).toArray = .ok (rawTier num (stripT t)) := by
+  cases t with
+  | I t => exact readTier_iv num hnum k t trail htrail hkw
+  | P t => exact readTier_pt num hnum k t trail htrail hkw
+
+/-- **(b) any written tier is read back** from its `tierTxt` (strip-invariant labels: the corollary) -/
 theorem readTier_written (num : α → String) (hnum : ∀ x, LongNum (num x).toList) (k : Nat) (t : AnyTier α) (trail : List Char)
     (htrail : ∀ c ∈ trail, c = ' ') (hkw : NoKwLong t) (hlab : StrippedLabels t) :
     readTierLong (tierBodyL num k t ++ trail).toArray = .ok (rawTier num t) := by
-  cases t with
-  | I t => exact readTier_iv num hnum k t trail htrail hkw hlab
-  | P t => exact readTier_pt num hnum k t trail htrail hkw hlab
+  rw [readTier_written_strip num hnum k t trail htrail hkw, stripT_of_stripped t hlab]
 
 theorem mapM_tiers (num : α → String) (hnum : ∀ x, LongNum (num x).toList) (k : Nat) (t : AnyTier α) (ts : List (AnyTier α))
-    (hkw : ∀ x ∈ t :: ts, NoKwLong x) (hlab : ∀ x ∈ t :: ts, StrippedLabels x) :
+    (hkw : ∀ x ∈ t :: ts, NoKwLong x) :
     ((piecesL tabL (tierBodyL num k t) (tierBodies num (k + 1) ts) []).map List.toArray).mapM readTierLong =
-      .ok ((t :: ts).map (rawTier num)) := by
+      .ok ((t :: ts).map fun t => rawTier num (stripT t)) := by
   induction ts generalizing k t with
   | nil =>
     simp only [tierBodies, piecesL, List.map_cons, List.map_nil, List.mapM_cons, List.mapM_nil,
-      readTier_written num hnum k t [] (by simp) (hkw t (by simp)) (hlab t (by simp)), bind, Except.bind,
+      readTier_written_strip num hnum k t [] (by simp) (hkw t (by simp)), bind, Except.bind,
       pure, Except.pure]
   | cons t2 ts ih =>
-    have h2 := ih (k + 1) t2 (fun x hx => hkw x (List.mem_cons_of_mem _ hx)) (fun x hx => hlab x (List.mem_cons_of_mem _ hx))
+    have h2 := ih (k + 1) t2 (fun x hx => hkw x (List.mem_cons_of_mem _ hx))
     simp only [tierBodies, piecesL, List.map_cons, List.mapM_cons,
-      readTier_written num hnum k t tabL mem_tabL (hkw t (by simp)) (hlab t (by simp)), bind, Except.bind,
+      readTier_written_strip num hnum k t tabL mem_tabL (hkw t (by simp)), bind, Except.bind,
       pure, Except.pure] at h2 ⊢
     rw [h2]
 
@@ -2272,26 +2297,28 @@ theorem hdr4 (num : α → String) (lo hi : α) (n : Nat) :
     ((longHdrSegs num lo hi n).map List.toArray ++ [#[]])[4]? =
       some ("xmax".toList ++ (eqL ++ ((num hi).toList ++ [' ']))).toArray := rfl
 
-/-- **C01, long format, whole file**: praatio's long-format reader (`_parseNormalTextgrid`) applied to the text praatio's
-long-format emitter writes for ANY textgrid (any number of tiers, also none; any number of entries) returns exactly that
-textgrid — under the hypotheses: numerals match the reader's captured group `-?[\d.]+(?:[eE][-+]?\d+)?`; no name or label
-contains `item [`, `item[` or the entry separator of its own tier class (A10); labels are strip-invariant; no `\r\n` in names and
-labels.  Tier NAMES are otherwise arbitrary: blanks at either end, line breaks, lines that read like rows of the format.
+/-- **C01, long format, whole file, EVERY label**: praatio's long-format reader (`_parseNormalTextgrid`) applied to the text
+praatio's long-format emitter writes for ANY textgrid (any number of tiers, also none; any number of entries) returns that
+textgrid with `str.strip()` applied to every label (`stripTg`: the reader's own `label.strip()`; names verbatim) and nothing else
+changed — the same form as the short-format `parseShort_emit_strip`; for the labels of in-memory textgrids, which the tier
+constructors strip, that is exactly the textgrid (`parseLong_emit`) — under the hypotheses: numerals match the reader's captured group `-?[\d.]+(?:[eE][-+]?\d+)?`; no name or label
+contains `item [`, `item[` or the entry separator of its own tier class (A10); no `\r\n` in names and
+labels.  Labels need NOT be strip-invariant.  Tier NAMES are otherwise arbitrary: blanks at either end, line breaks, lines that read like rows of the format.
 
 The hypotheses, classified: `hnum` — a property of the numeral renderer, true of CPython's `repr` / `"%d"` for every finite
 float, NEGATIVE ones and `-0.0` included (the sign used to be lost or to raise: defect A30, fixed — see `LongNum`);
-`hkw` — known reader defect A10, needed (`parseLong_keyword_counterexample`); `hlab` — enforced by the code: the
-`IntervalTier` / `PointTier` constructors strip every label, so no in-memory textgrid violates it (the reader strips labels
-too: an unstripped label would come back stripped, as in `parseShort_emit_strip`; tier NAMES need no such hypothesis here —
-this reader does not strip them, see the `#guard` on `" a "` below); there is no hypothesis on names beyond `hkw`: "names are single-line"
+`hkw` — known reader defect A10, needed (`parseLong_keyword_counterexample`); the former `hlab`
+(labels strip-invariant) is gone: replayed on praatio with a hand-built dictionary, the labels `" x \n"`, `"\t\"q\" "`, `"  m\n\n"`
+come back as `x`, `"q"`, `m` from the long AND the short format and nothing else is lost (tier NAMES are not stripped by this
+reader, see the `#guard` on `" a "` below); there is no hypothesis on names beyond `hkw`: "names are single-line"
 was needed until fix A32 (no DOTALL in the name pattern), its weakening `NameRowFree` until fix A33 (the tier's span rows were
 searched from the top of the header, through the name) — `parseLong_name_newline_regression`, `parseLong_name_row_regression`;
 `hcr` — C01 quantifies over texts without carriage returns (`NoCRLF` is weaker: a lone `\r` is allowed and survives at
 this level — `io.open`'s universal newlines turn it into `\n` when the file is read from disk). -/
-theorem parseLong_emit (num : α → String) (hnum : ∀ x, LongNum (num x).toList) (g : Tg α) (lo hi : α)
-    (hkw : ∀ t ∈ g.tiers, NoKwLong t) (hlab : ∀ t ∈ g.tiers, StrippedLabels t)
+theorem parseLong_emit_strip (num : α → String) (hnum : ∀ x, LongNum (num x).toList) (g : Tg α) (lo hi : α)
+    (hkw : ∀ t ∈ g.tiers, NoKwLong t)
     (hcr : ∀ t ∈ g.tiers, NoCRLF t) :
-    Rd.parseLong (Txt.ofString (tgToLong num g lo hi)) = .ok (rawOf num g lo hi) := by
+    Rd.parseLong (Txt.ofString (tgToLong num g lo hi)) = .ok (rawOf num (stripTg g) lo hi) := by
   have hfile : Txt.ofString (tgToLong num g lo hi) = (fileLong num g lo hi).toArray := by
     unfold Txt.ofString; rw [emitLong_toList]
   rw [hfile]
@@ -2327,16 +2354,25 @@ theorem parseLong_emit (num : α → String) (hnum : ∀ x, LongNum (num x).toLi
   have hf4 := headerField_written _ 4 "xmax".toList (num hi) (hnum hi) (by decide) (hdr4 num lo hi g.tiers.length)
   have hsp2 : splitKw (r0L ++ tiersL num 0 g.tiers).toArray (lit "item") = (r0L ++ ws).toArray :: restP.map List.toArray := by
     rw [splitKw_eq, lit_itA, lit_itB, List.toList_toArray, hs2, hp]; rfl
-  have htiers : (restP.map List.toArray).mapM readTierLong = .ok (g.tiers.map (rawTier num)) := by
+  have htiers : (restP.map List.toArray).mapM readTierLong = .ok (g.tiers.map fun t => rawTier num (stripT t)) := by
     rw [hrestP]
     cases hts : g.tiers with
     | nil => rfl
     | cons t ts =>
       simp only [tierBodies]
-      exact mapM_tiers num hnum 0 t ts (fun x hx => hkw x (by rw [hts]; exact hx)) (fun x hx => hlab x (by rw [hts]; exact hx))
+      exact mapM_tiers num hnum 0 t ts (fun x hx => hkw x (by rw [hts]; exact hx))
   unfold Rd.parseLong
   simp only [hrep, hsp, hst, if_true, hrest, hhl, hf3, hf4, hsp2, List.drop_succ_cons, List.drop_zero, htiers, bind,
-    Except.bind, pure, Except.pure, toStr_toArray, rawOf]
+    Except.bind, pure, Except.pure, toStr_toArray, rawOf, stripTg, List.map_map, Function.comp_def]
+
+/-- **C01, long format, whole file** for strip-invariant labels (which the tier constructors enforce): the reader returns
+exactly the textgrid that was written — the corollary of `parseLong_emit_strip` (`hlab`: enforced by the `IntervalTier` /
+`PointTier` constructors and `insertEntry`; without it the labels come back stripped and nothing else changes). -/
+theorem parseLong_emit (num : α → String) (hnum : ∀ x, LongNum (num x).toList) (g : Tg α) (lo hi : α)
+    (hkw : ∀ t ∈ g.tiers, NoKwLong t) (hlab : ∀ t ∈ g.tiers, StrippedLabels t)
+    (hcr : ∀ t ∈ g.tiers, NoCRLF t) :
+    Rd.parseLong (Txt.ofString (tgToLong num g lo hi)) = .ok (rawOf num g lo hi) := by
+  rw [parseLong_emit_strip num hnum g lo hi hkw hcr, stripTg_of_stripped g hlab]
 
 /-! ## the keyword hypothesis, exactly; non-vacuity; what must be excluded -/
 
@@ -2438,6 +2474,11 @@ def ptT (name l : String) : AnyTier Nat := .P ⟨name, [⟨0, l⟩, ⟨1, "z"⟩
 #guard !longOK [ptT "a" "points ["] && !longOK [ptT "a" "points[1]"] && !longOK [ptT "points [" "x"]
 -- `\r\n` is rewritten; labels must be strip-invariant (they are: the tier constructors strip); names are kept verbatim
 #guard !longOK [ivT "a" "x\r\ny"] && longOK [ivT "a" "x\ry"] && longOK [ivT " a " "x"]
+-- labels with surrounding white space come back stripped, nothing else changes (`parseLong_emit_strip`)
+#guard rawEq (Rd.parseLong (Txt.ofString (tgToLong numN ⟨[ivT "a" " x \n", ptT "p" "\t\"q\" "], none, none⟩ 0 9)))
+  (rawOf numN (stripTg ⟨[ivT "a" " x \n", ptT "p" "\t\"q\" "], none, none⟩) 0 9)
+#guard (rawOf numN (stripTg ⟨[ivT "a" " x \n", ptT "p" "\t\"q\" "], none, none⟩) 0 9).tiers.map (·.entries) ==
+  [[["0", "1", "x"], ["1", "2", "z"]], [["0", "\"q\""], ["1", "z"]]]
 -- multi-line names are read (A32, fixed) — leading / trailing line breaks, quotes at line ends, lines that look like other rows
 #guard longOK [ivT "a\nb" "x"] && longOK [ptT "\na\n" "x"] && longOK [ivT "a\"\nb\" \n" "x"] && longOK [ivT "a\ntext = \"u\"\nb" "x"]
 #guard longOK [ivT "a\nxmin = 1" "x"] && longOK [ivT "a\nxmax = 1\"" "x"] && longOK [ivT "a\nxmins\nb" "x"]
@@ -2672,10 +2713,11 @@ def dropEmpty (includeEmpty : Bool) (r : RawTg) : RawTg :=
 `includeEmptyIntervals = False` exactly the entries with empty label are removed.  (`hsn`: known defect A10 — a name or
 label containing `ooTextFile short` sends the long file to the short-format reader, see the `#guard` below; replayed on
 praatio: `ValueError: could not convert string to float: 'xmin = 0'`; the others as for `parseLong_emit`.) -/
-theorem parseText_long_emit (num : α → String) (hnum : ∀ x, LongNum (num x).toList) (g : Tg α) (lo hi : α)
-    (hkw : ∀ t ∈ g.tiers, NoKwLong t) (hlab : ∀ t ∈ g.tiers, StrippedLabels t)
+theorem parseText_long_emit_strip (num : α → String) (hnum : ∀ x, LongNum (num x).toList) (g : Tg α) (lo hi : α)
+    (hkw : ∀ t ∈ g.tiers, NoKwLong t)
     (hcr : ∀ t ∈ g.tiers, NoCRLF t) (hsn : ∀ t ∈ g.tiers, NoSniff t) (includeEmpty : Bool) :
-    Rd.parseText (Txt.ofString (tgToLong num g lo hi)) includeEmpty = .ok (dropEmpty includeEmpty (rawOf num g lo hi)) := by
+    Rd.parseText (Txt.ofString (tgToLong num g lo hi)) includeEmpty =
+      .ok (dropEmpty includeEmpty (rawOf num (stripTg g) lo hi)) := by
   have hfile : Txt.ofString (tgToLong num g lo hi) = (fileLong num g lo hi).toArray := by
     unfold Txt.ofString; rw [emitLong_toList]
   have hA : Txt.contains (Txt.ofString (tgToLong num g lo hi)) (lit "ooTextFile short") = false := by
@@ -2688,8 +2730,15 @@ theorem parseText_long_emit (num : α → String) (hnum : ∀ x, LongNum (num x)
       simp only [fileLong, List.append_assoc]; rfl⟩
   unfold Rd.parseText
   simp only [hA, hB, Bool.not_true, Bool.or_self, Bool.false_eq_true, if_false,
-    parseLong_emit num hnum g lo hi hkw hlab hcr, bind, Except.bind, dropEmpty]
+    parseLong_emit_strip num hnum g lo hi hkw hcr, bind, Except.bind, dropEmpty]
   cases includeEmpty <;> rfl
+
+/-- the long-format file through the sniffing, strip-invariant labels (the corollary of `parseText_long_emit_strip`) -/
+theorem parseText_long_emit (num : α → String) (hnum : ∀ x, LongNum (num x).toList) (g : Tg α) (lo hi : α)
+    (hkw : ∀ t ∈ g.tiers, NoKwLong t) (hlab : ∀ t ∈ g.tiers, StrippedLabels t)
+    (hcr : ∀ t ∈ g.tiers, NoCRLF t) (hsn : ∀ t ∈ g.tiers, NoSniff t) (includeEmpty : Bool) :
+    Rd.parseText (Txt.ofString (tgToLong num g lo hi)) includeEmpty = .ok (dropEmpty includeEmpty (rawOf num g lo hi)) := by
+  rw [parseText_long_emit_strip num hnum g lo hi hkw hcr hsn includeEmpty, stripTg_of_stripped g hlab]
 
 /-- the short-format file through the sniffing: it is read with the short-format reader as long as it does not contain
 `item [` (then `caseB` holds) — names, labels and numerals without `item [`.  (`hnumI`: a property of the renderer, true of
